@@ -65,6 +65,7 @@ package datadog
 
 //@ func (*metricPoller).poll
 //@   ensures[C20] polls_supplier: ncalls("funcvalue:metric_registry/datadog.metricPoller.supplier") == 1 && ret0 == p.id && ret1 == callres("funcvalue:metric_registry/datadog.metricPoller.supplier", 0, 0) && ret3 == callres("funcvalue:metric_registry/datadog.metricPoller.supplier", 0, 1)
+//@   assigns nothing
 
 //@ func (*metricSampleListener).AddSample
 //@   requires objs: l.client != nil && isFinite(value) && -4.0e18 <= value && value <= 4.0e18
